@@ -643,10 +643,22 @@ Definition qrowdiv (m : qmat) (s : qvec) : qmat := map2 (fun r x => map (fun y =
 Definition qsq (v : qvec) : qvec := map (fun x => qmul x x) v.
 
 Definition qclose (tol a b : Q) : bool := Qle_bool (Qabs (a - b)) (tol * (1 + Qabs b)).
-Definition qvclose tol := list_eqb (qclose tol).
+(* comparisons are relative to the SCALE of the expected value (an absolute tolerance would hide tiny columns):
+   - arrays every entry of which the implementation computes exactly on the dyadic inputs of the correspondence run
+     (operated mapping matrices, data vector, curvature / regularization matrices and their sums, the slots) are compared
+     ENTRY-WISE relative: |a - b| <= tol |b|  (so an expected exact zero must be an exact zero);
+   - solved vectors (reconstruction, mapped data) relative to the largest expected entry;
+   - the regularization term s^T H s relative to |b| + amb, amb = (sum |s_i|)^2 max |H_ij| (its rounding scale);
+   - the two log-determinants with 1 + |b| (a logarithm has an absolute scale). *)
+Definition qrel (tol a b : Q) : bool := Qle_bool (Qabs (a - b)) (tol * Qabs b).
+Definition qvclose tol := list_eqb (qrel tol).
 Definition qmclose tol := list_eqb (qvclose tol).
+Definition qmaxabs (v : qvec) : Q := fold_left (fun m x => if Qle_bool m (Qabs x) then Qabs x else m) v 0.
+Definition qvclose_max (tol : Q) (a b : qvec) : bool :=
+  let s := qmaxabs b in list_eqb (fun x y => Qle_bool (Qabs (x - y)) (tol * s)) a b.
 Definition qtol : Q := 1 # 1000000000.
 Definition qkey : Q := 1 # 100000000.
+Definition qtol_spec : Q := 1 # 10000000.
 
 Record oracle := {
   or_solve : list ((qmat * qvec) * res qvec);
@@ -687,16 +699,46 @@ Definition qkernels (C : qmat) (o : oracle) : kernels Q := {|
 (* ---------------------------------------------------------------------------------------------------- *)
 (* correspondence cases                                                                                   *)
 Definition res_close {A} (eqa : A -> A -> bool) (x y : res A) : bool := res_eqb eqa x y.
-Definition pval_close (a b : pval Q) : bool :=
+(* model output [a] against implementation output [b] for attribute [q] *)
+Definition pval_close_at (amb : Q) (q : qty) (a b : pval Q) : bool :=
   match a, b with
   | PM x, PM y => qmclose qtol x y
   | PV x, PV y => qvclose qtol x y
   | PL x, PL y => list_eqb (qmclose qtol) x y
-  | PRV x, PRV y => res_close (qvclose qtol) x y
-  | PRT x, PRT y => res_close (qclose qtol) x y
+  | PRV x, PRV y => res_close (qvclose_max qtol) x y
+  | PRT x, PRT y =>
+      match q with
+      | QRegTerm => res_close (fun u v => Qle_bool (Qabs (u - v)) (qtol * (Qabs v + amb))) x y
+      | _ => res_close (qclose qtol) x y
+      end
   | _, _ => false
   end.
-Definition outs_close (a b : res (list (pval Q))) : bool := res_eqb (list_eqb pval_close) a b.
+Fixpoint list_close_at (amb : Q) (qs : list qty) (a b : list (pval Q)) : bool :=
+  match qs, a, b with
+  | [], [], [] => true
+  | q :: qt, x :: at_, y :: bt => pval_close_at amb q x y && list_close_at amb qt at_ bt
+  | _, _, _ => false
+  end.
+Definition outs_close_at (amb : Q) (qs : list qty) (a b : res (list (pval Q))) : bool :=
+  res_eqb (list_close_at amb qs) a b.
+Fixpoint hist_close_at (amb : Q) (h : list (list qty)) (a b : list (res (list (pval Q)))) : bool :=
+  match h, a, b with
+  | [], [], [] => true
+  | qs :: ht, x :: at_, y :: bt => outs_close_at amb qs x y && hist_close_at amb ht at_ bt
+  | _, _, _ => false
+  end.
+(* implementation output against implementation output (specification side: no model value available): identical
+   computations on identical bits, so everything is compared relative to its own size *)
+Definition pval_same (a b : pval Q) : bool :=
+  match a, b with
+  | PM x, PM y => qmclose qtol x y
+  | PV x, PV y => qvclose qtol x y
+  | PL x, PL y => list_eqb (qmclose qtol) x y
+  | PRV x, PRV y => res_close (qvclose_max qtol_spec) x y
+  | PRT x, PRT y => res_close (qrel qtol_spec) x y
+  | _, _ => false
+  end.
+Definition outs_close (a b : res (list (pval Q))) : bool := res_eqb (list_eqb pval_same) a b.
 
 Definition opt_close {A} (eqa : A -> A -> bool) := option_eqb eqa.
 Definition wt_close (a b : wtilde Q) : bool := qmclose qtol (wt_w a) (wt_w b) && Qeq_bool (wt_nv a) (wt_nv b).
@@ -735,14 +777,22 @@ Inductive case :=
   (* the factory given a Preloads object whose w_tilde may carry another noise_map_value *)
 | KNoise (inp : input Q) (pre : pstore Q) (raised : bool).
 
+Definition sumabs (v : qvec) : Q := fold_left (fun m x => qadd m (Qabs x)) v 0.
+(* rounding scale of the regularization term, from the model's own fresh values *)
+Definition amb_regterm (K : kernels Q) (inp : input Q) : Q :=
+  match fst (run_inversion K inp code empty_store [QRecRed; QRegRed]) with
+  | Ok [PRV (Ok s); PM H] => let a := sumabs s in qmul (qmul a a) (qmaxabs (concat H))
+  | _ => 0
+  end.
 Definition agree (k : case) : bool :=
   match k with
   | KHist C o inp pre h fresh outs post =>
       let K := qkernels C o in
+      let amb := amb_regterm K inp in
       let (mo, mp) := run_history K inp code pre h in
-      list_eqb outs_close mo outs && store_close mp post
+      hist_close_at amb h mo outs && store_close mp post
       && match h with
-         | qs :: _ => outs_close (fst (run_inversion K inp code empty_store qs)) fresh
+         | qs :: _ => outs_close_at amb qs (fst (run_inversion K inp code empty_store qs)) fresh
          | [] => true
          end
   | KNoise inp pre raised =>
